@@ -813,7 +813,8 @@ std::optional<std::pair<Node_Multiplexer*, Node_Constant*>> followedByCompatible
 		cycleCheck.insert(nh.node());
 
 		if (auto *nextMuxNode = dynamic_cast<Node_Multiplexer*>(nh.node())) {
-			if (nextMuxNode->getNumInputPorts() == 3) {
+			// Only a mux that takes the chain as its "comparison false" input (port 1) continues it.
+			if (nextMuxNode->getNumInputPorts() == 3 && nh.port() == 1) {
 				auto nextComparison = isComparisonWithConstant(nextMuxNode->getNonSignalDriver(0));
 				if (nextComparison)
 					if (nextComparison->second == comparisonSignal)
